@@ -49,25 +49,32 @@ def _copy_exception_as(cls, exception):
           descriptor.__set__(copy, descriptor.__get__(exception, klass))
         except (AttributeError, TypeError):
           pass  # Unset on `exception`, or read-only.
-  # Assigning `__cause__` (even `None`) sets this flag, so restore it last.
-  copy.__suppress_context__ = exception.__suppress_context__
+  # Assigning `__cause__` (even `None`) sets this flag, so restore it last (through
+  # the descriptor: the class may define a `__setattr__` of its own).
+  BaseException.__suppress_context__.__set__(
+      copy, exception.__suppress_context__)
   return copy
 
 
 def augment_exception_message_and_reraise(exception, message):
   """Reraises `exception`, appending `message` to its string representation."""
 
-  class ExceptionProxy(type(exception)):
-    """Acts as a proxy for an exception with an augmented message."""
-    __module__ = type(exception).__module__
+  try:
 
-    def __str__(self):
-      return str(exception) + message
+    class ExceptionProxy(type(exception)):
+      """Acts as a proxy for an exception with an augmented message."""
+      __module__ = type(exception).__module__
 
-  ExceptionProxy.__name__ = type(exception).__name__
-  ExceptionProxy.__qualname__ = type(exception).__qualname__
+      def __str__(self):
+        return str(exception) + message
 
-  proxy = _copy_exception_as(ExceptionProxy, exception)
+    ExceptionProxy.__name__ = type(exception).__name__
+    ExceptionProxy.__qualname__ = type(exception).__qualname__
+    proxy = _copy_exception_as(ExceptionProxy, exception)
+  except Exception:  # pylint: disable=broad-except
+    # The class can't be subclassed (e.g. an `__init_subclass__` with required
+    # arguments): the exception itself is worth more than the augmented message.
+    proxy = exception
   raise proxy.with_traceback(exception.__traceback__)
 
 
